@@ -324,6 +324,13 @@ def validate_traces(items):
 
 def render_text(items):
     """items: [{env, names, walk}] -> list of text (str) per item, via spec/Print.tla."""
+    if len(items) > TLC_BATCH:
+        out, stats = [], None
+        for lo in range(0, len(items), TLC_BATCH):
+            o, st = render_text(items[lo:lo + TLC_BATCH])
+            out += o
+            stats = _merge_stats(stats, st)
+        return out, stats
     path = _write_given(items)
     res = run_tlc("Print", {}, invariants=["PDump"], prefix=("PVEC",), spec="PSpec", env={"GIVEN_FILE": path})
     out = [None] * len(items)
